@@ -30,7 +30,7 @@ def rand_len(rng, tier, small=False):
     if r < 0.93 or tier == 'quick' and r < 0.985: return rng.randrange(20, 300)
     return rng.choice(LONG_LENGTHS)
 
-ROUTES = ['bin', 'auto', 'bytes', 'iter', 'bitarray', 'slice', 'copy', 'bytesio', 'join', 'file', 'file_exact', 'bitarray_le', 'filehandle_raw']
+ROUTES = ['bin', 'auto', 'bytes', 'iter', 'bitarray', 'slice', 'copy', 'bytesio', 'join', 'file', 'file_exact', 'bitarray_le', 'filehandle_raw', 'filehandle_rw']
 
 def build(clsname, bits, route='bin', pos=None):
     """Construct an object of class clsname holding `bits` through the given route."""
@@ -78,6 +78,18 @@ def build(clsname, bits, route='bin', pos=None):
                 o = C(filename=path, offset=5, length=n) if route == 'file' else C(filename=path, length=n)
             finally:
                 os.unlink(path)          # the mapping stays valid
+    elif route == 'filehandle_rw':
+        # a handle opened for reading and writing (io.BufferedRandom), offset window
+        import tempfile, os
+        if n == 0: o = C(bin=bits)
+        else:
+            allb = '110' + bits; allb += '0' * ((-len(allb)) % 8)
+            fd, path = tempfile.mkstemp(prefix='verif_route_')
+            try:
+                with os.fdopen(fd, 'wb') as fh: fh.write(int(allb, 2).to_bytes(len(allb) // 8, 'big'))
+                with open(path, 'r+b') as fh: o = C(fh, offset=3, length=n)
+            finally:
+                os.unlink(path)
     elif route == 'filehandle_raw':
         # an unbuffered binary handle (io.FileIO) on a zero padded file, explicit length
         import tempfile, os
